@@ -81,6 +81,33 @@ func canonRes(r lib.Res) string {
 	return fmt.Sprintf("err(non-library,%s,code=%d)", r.Type, r.Code)
 }
 
+// Stream reads a json object to its end (or first error) after an optional first call ("Check" or
+// "Len") and renders the events.
+func Stream(o *Obj, first string) (out string) {
+	defer func() {
+		if r := recover(); r != nil {
+			out += fmt.Sprintf("PANIC:%v", r)
+		}
+	}()
+	switch first {
+	case "Check":
+		_ = o.D.Check()
+	case "Len":
+		_, _ = o.D.Len()
+	}
+	for i := 0; i < 100000; i++ {
+		l, err := o.D.NextLexeme()
+		if err != nil {
+			if errors.Is(err, io.EOF) {
+				return out + "EOF"
+			}
+			return out + canonRes(lib.Canon(err))
+		}
+		out += fmt.Sprintf("%s[%d,%d] ", l.Type().String(), l.Begin(), l.End())
+	}
+	return out + "..."
+}
+
 // Ops available per kind.
 func Ops(sp *Spec) []string {
 	switch sp.Kind {
